@@ -47,7 +47,10 @@ def check(run):
             if p_['d'] and p_['f'] in (r['EPF'], r['RNF']):
                 cnt[p_['f']] = cnt.get(p_['f'], 0) + 1
         return any(v >= 2 for v in cnt.values())
-    porecs = [r for r in recs + recs2 if two_opt(r)][:300] * 2 + \
+    def has_mid(r):
+        # a middleware function in the endpoint / render phase precedes the endpoint / render function in the generated chain
+        return any(p_['f'] <= 3 * r['n'] and (p_['f'] - 1) % 3 + 1 in (2, 3) for p_ in r['P']) or any(b_[1] in (2, 3) for b_ in r['bare'])
+    porecs = sorted([r for r in recs + recs2 if two_opt(r)], key=lambda r: not has_mid(r))[:300] * 2 + \
         [r for r in recs + recs2 if any((not p['d']) and p['f'] in (r['EPF'], r['RNF']) for p in r['P'])]
     po = ic.replay_records(run, porecs[:600 if quick else 8000],
                            {'mode': 'C01', 'kwonly': False, 'posonly': True, 'carriers': True},
